@@ -1,14 +1,420 @@
 package main
 
 import (
+	"encoding/json"
+	"flag"
 	"fmt"
-	"golang.org/x/tools/go/packages"
-	"golang.org/x/tools/go/ssa"
-	"golang.org/x/tools/go/ssa/ssautil"
+	"os"
+	"path/filepath"
+	"regexp"
+	"sort"
+	"strconv"
+	"strings"
+	"sync"
+	"time"
 )
 
-var _ = packages.Load
-var _ = ssa.BuilderMode(0)
-var _ = ssautil.AllPackages
+type KnownFinding struct {
+	Property   string `json:"property"`
+	Obligation string `json:"obligation"` // regular expression on the obligation name
+	Witness    string `json:"witness"`
+	What       string `json:"what"`
+	Status     string `json:"status"` // open | fixed
+	Commit     string `json:"commit,omitempty"`
+}
 
-func main() { fmt.Println("govc") }
+type KnownFile struct {
+	Findings []KnownFinding `json:"findings"`
+}
+
+func main() {
+	if len(os.Args) < 2 {
+		fmt.Fprintln(os.Stderr, "usage: govc check|dump|list ...")
+		os.Exit(2)
+	}
+	switch os.Args[1] {
+	case "check":
+		os.Exit(cmdCheck(os.Args[2:]))
+	case "dump":
+		os.Exit(cmdDump(os.Args[2:]))
+	case "list":
+		os.Exit(cmdList(os.Args[2:]))
+	}
+	fmt.Fprintln(os.Stderr, "unknown command")
+	os.Exit(2)
+}
+
+func load(repo string) (*Program, error) {
+	p, err := loadProgram(repo, []string{"./...", "github.com/tokenized/pkg/bitcoin", "github.com/tokenized/pkg/wire"})
+	if err != nil {
+		return nil, err
+	}
+	if err := p.loadContracts(); err != nil {
+		return nil, err
+	}
+	return p, nil
+}
+
+func hasProp(props []string, p string) bool {
+	for _, x := range props {
+		if x == p {
+			return true
+		}
+	}
+	return false
+}
+
+func cmdList(args []string) int {
+	fs := flag.NewFlagSet("list", flag.ExitOnError)
+	repo := fs.String("repo", "/repo", "repository")
+	fs.Parse(args)
+	p, err := load(*repo)
+	if err != nil {
+		fmt.Fprintln(os.Stderr, "load:", err)
+		return 3
+	}
+	var names []string
+	for _, c := range p.Cons.ByFunc {
+		names = append(names, fmt.Sprintf("%-60s trusted=%v props=%v", shortName(c.Fn), c.Trusted, c.props()))
+	}
+	sort.Strings(names)
+	for _, n := range names {
+		fmt.Println(n)
+	}
+	return 0
+}
+
+func cmdDump(args []string) int {
+	fs := flag.NewFlagSet("dump", flag.ExitOnError)
+	repo := fs.String("repo", "/repo", "repository")
+	fn := fs.String("func", "", "function (substring of short name)")
+	obl := fs.String("obl", "", "obligation name substring to print as SMT")
+	solve := fs.Bool("solve", false, "solve the obligations")
+	timeout := fs.Int("timeout", 10, "solver timeout (s)")
+	fs.Parse(args)
+	p, err := load(*repo)
+	if err != nil {
+		fmt.Fprintln(os.Stderr, "load:", err)
+		return 3
+	}
+	scratch, _ := os.MkdirTemp(scratchBase(), "govc")
+	defer os.RemoveAll(scratch)
+	for _, c := range p.Cons.ByFunc {
+		if c.Trusted || !strings.Contains(shortName(c.Fn), *fn) {
+			continue
+		}
+		r := p.verifyFunction(c)
+		fmt.Printf("== %s: err=%v\n", r.Name, r.Err)
+		if r.VC == nil {
+			continue
+		}
+		for _, w := range r.VC.warnings {
+			fmt.Println("   warning:", w)
+		}
+		if *solve {
+			stats := newSolveStats()
+			solveAll(r.VC.obls, solveOpts{timeoutS: *timeout, scratch: scratch, workers: 16}, stats)
+		}
+		for _, o := range r.VC.obls {
+			fmt.Printf("   %-8s %-7s %5.2fs %s  %v\n", o.Kind, o.Status, o.Seconds, o.Name, o.Props)
+			if *obl != "" && strings.Contains(o.Name, *obl) {
+				fmt.Println(o.smtText(true))
+				if o.Model != "" {
+					fmt.Println(o.Model)
+				}
+			}
+		}
+	}
+	return 0
+}
+
+func scratchBase() string {
+	if d := os.Getenv("GOVC_SCRATCH"); d != "" {
+		os.MkdirAll(d, 0o755)
+		return d
+	}
+	d := "/var/tmp"
+	if st, err := os.Stat(d); err != nil || !st.IsDir() {
+		d = os.TempDir()
+	}
+	return d
+}
+
+func cmdCheck(args []string) int {
+	fs := flag.NewFlagSet("check", flag.ExitOnError)
+	repo := fs.String("repo", "/repo", "repository")
+	prop := fs.String("prop", "", "property id")
+	tier := fs.String("tier", "quick", "quick|thorough")
+	evidence := fs.String("evidence", "", "evidence file to write")
+	known := fs.String("known", "/verif/known_findings.json", "known findings file")
+	replayDir := fs.String("replays", "/verif/replays", "directory for replay files")
+	level := fs.String("level", "proof", "evidence level")
+	extra := fs.String("extra", "", "JSON file with extra coverage keys (bounded stand-ins etc.) to merge")
+	fs.Parse(args)
+	start := time.Now()
+	seed := 0
+	if s := os.Getenv("VERIF_SEED"); s != "" {
+		seed, _ = strconv.Atoi(s)
+	}
+	p, err := load(*repo)
+	if err != nil {
+		fmt.Println("UNDECIDED: cannot load repository or contracts:", err)
+		return 3
+	}
+	// functions carrying the property
+	var cons []*Contract
+	for _, c := range p.Cons.ByFunc {
+		if !c.Trusted && hasProp(c.props(), *prop) {
+			cons = append(cons, c)
+		}
+	}
+	sort.Slice(cons, func(i, j int) bool { return shortName(cons[i].Fn) < shortName(cons[j].Fn) })
+	if len(cons) == 0 {
+		fmt.Printf("UNDECIDED: no function under contract carries property %s\n", *prop)
+		return 3
+	}
+	results := make([]*FuncResult, len(cons))
+	var wg sync.WaitGroup
+	sem := make(chan struct{}, 8)
+	for i, c := range cons {
+		wg.Add(1)
+		go func(i int, c *Contract) {
+			defer wg.Done()
+			sem <- struct{}{}
+			results[i] = p.verifyFunction(c)
+			<-sem
+		}(i, c)
+	}
+	wg.Wait()
+	undecided := 0
+	var obls []*Obligation
+	trusted := map[string]bool{}
+	var warnings []string
+	var funcs []string
+	for _, r := range results {
+		funcs = append(funcs, r.Name)
+		if r.Err != nil {
+			fmt.Printf("UNDECIDED: %s: %v\n", r.Name, r.Err)
+			undecided++
+			continue
+		}
+		for t := range r.VC.trusted {
+			trusted[t] = true
+		}
+		warnings = append(warnings, r.VC.warnings...)
+		for _, o := range r.VC.obls {
+			if len(o.Props) == 0 || hasProp(o.Props, *prop) {
+				obls = append(obls, o)
+			}
+		}
+	}
+	scratch, _ := os.MkdirTemp(scratchBase(), "govc")
+	defer os.RemoveAll(scratch)
+	opts := solveOpts{timeoutS: 10, seed: seed, scratch: scratch, workers: 16}
+	if *tier == "thorough" {
+		opts.timeoutS = 60
+		opts.allThree = true
+	}
+	stats := newSolveStats()
+	solveAll(obls, opts, stats)
+
+	// known findings
+	var kf KnownFile
+	if data, err := os.ReadFile(*known); err == nil {
+		if err := json.Unmarshal(data, &kf); err != nil {
+			fmt.Println("UNDECIDED: cannot parse known findings:", err)
+			return 3
+		}
+	}
+	discharged, nObl := 0, 0
+	byKind := map[string]int{}
+	bySolver := map[string]int{}
+	var samples []map[string]interface{}
+	violations := 0
+	knownHits := 0
+	unstable := 0
+	var failed []*Obligation
+	for _, o := range obls {
+		if o.Expect == "sat" {
+			// vacuity canary: must NOT be provable
+			if o.Status == "unsat" {
+				failed = append(failed, o)
+			}
+			continue
+		}
+		nObl++
+		byKind[o.Kind]++
+		if o.Status == "unsat" {
+			discharged++
+			bySolver[o.Solver]++
+			if opts.allThree && o.Agree < 3 {
+				unstable++
+			}
+			if len(samples) < 12 && (o.Kind == "post" || len(samples) < 4) {
+				samples = append(samples, map[string]interface{}{"obligation": o.Name, "kind": o.Kind, "solver": o.Solver, "seconds": round3(o.Seconds), "smt_bytes": len(o.smtText(false)), "clause": o.Desc})
+			}
+			continue
+		}
+		failed = append(failed, o)
+	}
+	exit := 0
+	for _, o := range failed {
+		if o.Expect == "sat" {
+			fmt.Printf("VACUOUS: %s: the contract's preconditions are contradictory\n", o.Name)
+			rp := writeReplay(*replayDir, *prop, o, "vacuity: requires unsatisfiable")
+			fmt.Printf("VIOLATION property=%s replay=%s no-failing-input-found\n", *prop, rp)
+			violations++
+			exit = 1
+			continue
+		}
+		matched := false
+		for _, k := range kf.Findings {
+			if k.Status != "open" || k.Property != *prop {
+				continue
+			}
+			if re, err := regexp.Compile(k.Obligation); err == nil && re.MatchString(o.Name) {
+				fmt.Printf("KNOWN-FINDING: property=%s %s [%s]\n", *prop, k.What, o.Name)
+				matched = true
+				knownHits++
+				break
+			}
+		}
+		if matched {
+			continue
+		}
+		violations++
+		exit = 1
+		rp := writeReplay(*replayDir, *prop, o, "")
+		suffix := " no-failing-input-found"
+		if confirmed := tryReplay(p, *prop, o, rp); confirmed {
+			suffix = ""
+		}
+		fmt.Printf("FAILED: %s (%s by %s): %s\n", o.Name, o.Status, o.Solver, o.Desc)
+		fmt.Printf("VIOLATION property=%s replay=%s%s\n", *prop, rp, suffix)
+	}
+	if undecided > 0 && exit == 0 {
+		exit = 3
+	}
+	wall := time.Since(start).Seconds()
+	// evidence
+	if *evidence != "" {
+		var tb []string
+		for t := range trusted {
+			tb = append(tb, t)
+		}
+		sort.Strings(tb)
+		sort.Strings(warnings)
+		warnings = dedup(warnings)
+		cov := map[string]interface{}{
+			"obligations":          nObl,
+			"discharged":           discharged,
+			"checker_cmd":          fmt.Sprintf("/verif/bin/govc check -prop %s -tier %s (VC generation over go/ssa of /repo's working tree, tags=verif; solvers z3 4.8.12, z3-new 5.1.0, cvc5 1.0 raced per obligation, %ds each)", *prop, *tier, opts.timeoutS),
+			"trusted_base":         tb,
+			"functions_under_contract": funcs,
+			"obligations_by_kind":  byKind,
+			"discharged_by_solver": bySolver,
+			"solver_seconds":       roundMap(stats.seconds),
+			"solver_queries":       stats.queries,
+			"samples":              samples,
+			"known_findings_hit":   knownHits,
+			"undecided_functions":  undecided,
+			"generator_warnings":   warnings,
+			"integer_model":        "int/int64 mathematical (no overflow modelled); uint8/16/32/64 and int8/16/32 wrap modulo 2^N",
+			"vacuity_checks":       len(obls) - nObl,
+		}
+		if opts.allThree {
+			cov["unstable_obligations"] = unstable
+		}
+		if *extra != "" {
+			if data, err := os.ReadFile(*extra); err == nil {
+				var ex map[string]interface{}
+				if json.Unmarshal(data, &ex) == nil {
+					for k, v := range ex {
+						cov[k] = v
+					}
+				}
+			}
+		}
+		if *level == "other" {
+			if _, ok := cov["explanation"]; !ok {
+				cov["explanation"] = "proof obligations discharged by SMT plus bounded stand-ins reported under separate keys"
+			}
+		}
+		assumptions := append([]string{}, p.Cons.Assumed...)
+		sort.Strings(assumptions)
+		ev := map[string]interface{}{
+			"property_id": *prop,
+			"tier":        *tier,
+			"seed":        seed,
+			"level":       *level,
+			"coverage":    cov,
+			"assumptions": append(assumptions, tb...),
+			"wall_s":      round3(wall),
+			"violations":  violations,
+		}
+		data, _ := json.MarshalIndent(ev, "", " ")
+		os.MkdirAll(filepath.Dir(*evidence), 0o755)
+		if err := os.WriteFile(*evidence, data, 0o644); err != nil {
+			fmt.Println("cannot write evidence:", err)
+			return 3
+		}
+	}
+	fmt.Printf("property %s: %d/%d obligations discharged over %d functions (%d known-finding hits, %d undecided functions) in %.1fs\n",
+		*prop, discharged, nObl, len(cons), knownHits, undecided, wall)
+	return exit
+}
+
+func dedup(xs []string) []string {
+	var out []string
+	for i, x := range xs {
+		if i == 0 || x != xs[i-1] {
+			out = append(out, x)
+		}
+	}
+	return out
+}
+
+func round3(x float64) float64 { return float64(int(x*1000+0.5)) / 1000 }
+
+func roundMap(m map[string]float64) map[string]float64 {
+	out := map[string]float64{}
+	for k, v := range m {
+		out[k] = round3(v)
+	}
+	return out
+}
+
+var fileSafe = regexp.MustCompile(`[^A-Za-z0-9_.\-]+`)
+
+func writeReplay(dir, prop string, o *Obligation, note string) string {
+	d := filepath.Join(dir, prop)
+	os.MkdirAll(d, 0o755)
+	name := fileSafe.ReplaceAllString(o.Name, "_")
+	if len(name) > 150 {
+		name = name[:150]
+	}
+	path := filepath.Join(d, name+".json")
+	model := o.Model
+	if len(model) > 200000 {
+		model = model[:200000] + "\n...truncated"
+	}
+	rec := map[string]interface{}{
+		"property":      prop,
+		"obligation":    o.Name,
+		"kind":          o.Kind,
+		"clause":        o.Desc,
+		"function":      o.Func,
+		"solver":        o.Solver,
+		"solver_status": o.Status,
+		"solver_output": model,
+		"note":          note,
+	}
+	data, _ := json.MarshalIndent(rec, "", " ")
+	os.WriteFile(path, data, 0o644)
+	return path
+}
+
+// tryReplay attempts to confirm a failed obligation on the real code. Implemented per replay family in replay.go.
+func tryReplay(p *Program, prop string, o *Obligation, replayPath string) bool {
+	return replayObligation(p, prop, o, replayPath)
+}
